@@ -5,6 +5,7 @@ import (
 	"fmt"
 	"runtime"
 
+	"github.com/akalin/gopar/gf2p16"
 	"github.com/akalin/gopar/par2"
 	"github.com/akalin/gopar/rsec16"
 
@@ -31,6 +32,7 @@ type c12Case struct {
 	Bound  int    `json:"bound,omitempty"` // preemption bound (-1 = unbounded)
 	Prefix []int  `json:"prefix,omitempty"`
 	Split  int    `json:"split,omitempty"`
+	NoSSSE3 bool  `json:"nossse3,omitempty"` // partition / par2g with the SSSE3 dispatch flag forced off
 }
 
 // c12SchedRun / c12SchedGen are provided by the overlay (vsched) build.
@@ -165,6 +167,10 @@ func c12Gen(g *core.Gen) {
 	}
 	for gg := 1; gg <= 12; gg++ {
 		g.Emit(&c12Case{Kind: "par2g", G: gg})
+		g.Emit(&c12Case{Kind: "par2g", G: gg, NoSSSE3: true})
+	}
+	for l := 2; l <= 300; l += 2 {
+		g.Emit(&c12Case{Kind: "partition", Len: l, D: 3, P: 2, GLo: 1, GHi: 20, NoSSSE3: true})
 	}
 	if c12SchedGen != nil {
 		c12SchedGen(g)
@@ -176,6 +182,10 @@ func c12Gen(g *core.Gen) {
 
 func c12Run(ci interface{}, r *core.Rec) {
 	c := ci.(*c12Case)
+	if c.NoSSSE3 {
+		old := gf2p16.VerifSetUseSSSE3(false)
+		defer gf2p16.VerifSetUseSSSE3(old)
+	}
 	switch c.Kind {
 	case "partition":
 		n := 0
